@@ -14,7 +14,7 @@ MANIFEST = {
     "technique": "Coq proof (per-operation inversion lemmas + induction over operation sequences) + model/implementation correspondence on the wrapper state machine",
 }
 THEOREMS = ["C03_increase_credits_at_most_paid", "C03_decrease_debits_at_least_paid", "C03_withdraw_all_rounds_down",
-            "C03_repay_all_rounds_up", "C03_no_profitable_round_trip", "C03_prefee_covers"]
+            "C03_repay_all_rounds_up", "C03_no_profitable_round_trip", "C03_prefee_covers", "C03_prefee_covers_in_every_epoch"]
 RULE = ("operation sequences (deposit/withdraw/borrow/repay/withdraw_all/repay_all/close/liquidation primitives/accrue/"
         "socialise/claim/sort/clock) over 1-3 banks and 1-4 accounts executed on the real Bank + BankAccountWrapper; share "
         "values 1, accrued, post-loss and extreme; amounts 1, 2, 10^k, previous amount +-1, u64::MAX; fractional I80F48 amounts "
@@ -63,6 +63,13 @@ def gen_prefee(rng):
     else:
         post = int(10 ** (rng.random() * 19.2))
     post = max(0, min(U64, post))
+    if rng.random() < 0.4:
+        # a pending fee change: (bps, maxfee) is the NEWER schedule starting at epoch e_new; the call happens in `epoch`
+        old_bps = rng.choice([0, 1, 5, 100, 9999, 10000, rng.randrange(0, 10001)])
+        old_max = rng.choice([0, 1, 1000, U64, rng.randrange(0, 10 ** 12)])
+        e_new = rng.choice([1, 2, 600, U64])
+        epoch = max(0, min(U64, rng.choice([e_new - 1, e_new, e_new, e_new + 1, 0])))
+        return f"{bps} {maxfee} {post} {old_bps} {old_max} {e_new} {epoch}"
     return f"{bps} {maxfee} {post}"
 
 
@@ -128,10 +135,10 @@ def oracle(suite, case, impl):
 
 
 def oracle_prefee(case, impl):
-    bps, maxfee, post = map(int, case.split())
+    bps, maxfee, post = map(int, case.split()[:3])
     if impl.startswith("NONE") or impl.startswith("PANIC"):
         return None
     pre, fee = map(int, impl.split())
     if pre - fee < post:
-        return {"key": "prefee-undercovers", "what": f"bps={bps} max={maxfee}: pre-fee amount {pre} minus fee {fee} < requested {post}"}
+        return {"key": "prefee-undercovers", "what": f"case {case}: pre-fee amount {pre} minus the fee {fee} the mint charges in that epoch < requested {post}"}
     return None
